@@ -406,6 +406,73 @@ fn run_pressure(rec: &mut Rec, steps: u32) {
     }
 }
 
+/// The largest block there is (a whole bank of DAA, the instruction with the longest
+/// translation) entered with the translation area filled to every level: filler blocks of
+/// chosen length bring the area to `target` bytes (or to wherever the emulator restarts it),
+/// then the DAA block runs and must do what the interpreter does.
+fn largest_block_at_level(rec: &mut Rec, target: usize) {
+    use crate::mach::Regs;
+    let case = json!({"kind": "largest-block-at-fill-level", "target": target});
+    rec.current(&case.to_string());
+    rec.eval(1);
+    rec.class("largest-block-at-fill-level", 1);
+    rec.nontrivial(fnv(case.to_string().as_bytes()));
+    let mut rom = crate::rom::RomImage::new(0x03, 0x02, 0x03, 0x00);
+    for a in 0..0x3fff {
+        rom.bytes[0x4000 + a] = 0x27;
+        rom.bytes[0x8000 + a] = 0x3c;
+    }
+    rom.bytes[0x7fff] = 0xc9;
+    rom.bytes[0xbfff] = 0xc9;
+    rom.fix_checksum();
+    let mut jit = j::M::new(&rom);
+    let mut int = i::M::new(&rom);
+    let regs = |pc: u16| Regs { af: 0x1200, bc: 0, de: 0, hl: 0, sp: 0xdff0, pc: pc as u32, cycles: 0 };
+    let r = guarded(|| {
+        // fill with runs of INC A of chosen length (each entry address is a new block)
+        jit.write(0x2000, 2);
+        let mut used = jit.cache_used();
+        let mut entry = 0x4000u16;
+        let mut restarted = false;
+        while used + 64 < target && entry < 0x7f00 {
+            let want = ((target - used) / 39).clamp(1, 0x3fff - (entry as usize - 0x4000));
+            let pc = (0x7fff - want) as u16;
+            let pc = pc.max(entry);
+            jit.set_regs(&regs(pc));
+            jit.step_block();
+            let now = jit.cache_used();
+            if now < used {
+                restarted = true;
+                break;
+            }
+            used = now;
+            entry = entry.wrapping_add(1).max(0x4000);
+            if pc == entry - 1 && want < 8 {
+                break;
+            }
+        }
+        let level = jit.cache_used();
+        jit.write(0x2000, 1);
+        int.write(0x2000, 1);
+        jit.set_regs(&regs(0x4000));
+        int.set_regs(&regs(0x4000));
+        jit.step_block();
+        int.step_block();
+        (level, restarted)
+    });
+    match r {
+        Err(m) => rec.violation("largest-block-panic", case, format!("a whole bank of DAA entered with about {} bytes of the translation area in use: panicked: {}", target, m)),
+        Ok((level, restarted)) => {
+            if restarted {
+                rec.class("fill-level-beyond-the-restart-threshold", 1);
+            }
+            if jit.regs() != int.regs() {
+                rec.violation("largest-block-differs", case, format!("a whole bank of DAA entered with {} bytes of the translation area in use: registers {:?}, interpreter {:?}", level, jit.regs(), int.regs()));
+            }
+        }
+    }
+}
+
 fn run(rec: &mut Rec) {
     // translation-heavy (a new code cache per step): only some shards take part
     if rec.ctx.nshards >= 4 && rec.ctx.shard % 2 == 1 {
@@ -413,6 +480,21 @@ fn run(rec: &mut Rec) {
     }
     if rec.ctx.shard == 0 {
         run_pressure(rec, rec.ctx.tier.pick(700, 8000));
+    }
+    // the largest block at every fill level of the translation area (4 MiB .. 8 MiB)
+    {
+        let step = rec.ctx.tier.pick(0x10000usize, 0x2000);
+        let workers = if rec.ctx.nshards >= 4 { rec.ctx.nshards / 2 } else { rec.ctx.nshards.max(1) };
+        let my = if rec.ctx.nshards >= 4 { rec.ctx.shard / 2 } else { rec.ctx.shard };
+        let mut k = 0usize;
+        let mut target = 0x400000usize;
+        while target < 0x7f0000 {
+            if k % workers == my && !rec.too_many() {
+                largest_block_at_level(rec, target);
+            }
+            k += 1;
+            target += step;
+        }
     }
     let cases = rec.ctx.tier.pick(400u32, 12_000);
     let strat = (0u8..3, any::<u16>(), prop::collection::vec(op_strategy(), 1..60)).prop_map(|(cart, seed, ops)| Case { cart, seed, ops });
@@ -426,6 +508,10 @@ fn run(rec: &mut Rec) {
 }
 
 fn replay(case: &Value, rec: &mut Rec) {
+    if case.get("kind").and_then(|k| k.as_str()) == Some("largest-block-at-fill-level") {
+        largest_block_at_level(rec, (case.get("target").and_then(|v| v.as_u64()).unwrap_or(0x500000) as usize).min(0x7f0000));
+        return;
+    }
     if case.get("kind").and_then(|k| k.as_str()) == Some("cache-pressure-banks") {
         run_pressure(rec, case.get("steps").and_then(|v| v.as_u64()).unwrap_or(700) as u32);
         return;
